@@ -14,7 +14,10 @@ import (
 	"sort"
 	"strconv"
 	"sync"
+	"sync/atomic"
+	"syscall"
 	"testing"
+	"time"
 )
 
 // OutDir is where a test process leaves stats.json, hashes.bin, fail.json and journal.json.
@@ -75,6 +78,7 @@ func Canon(sc any) []byte {
 // Record counts one executed case.  nontrivial is the property's stated rule
 // evaluated on this case; classes feed the generator histogram.
 func Record(sc any, nontrivial bool, classes ...string) {
+	progress.Add(1)
 	RecordCanon(Canon(sc), nontrivial, classes...)
 }
 
@@ -166,6 +170,7 @@ var journalFile *os.File
 // Journal overwrites journal.json with the scenario about to be executed, so that
 // a process-killing panic in a library goroutine still leaves a reproduction.
 func Journal(prop, test string, sc any) {
+	progress.Add(1)
 	if journalFile == nil {
 		f, err := os.OpenFile(filepath.Join(OutDir(), "journal.json"), os.O_CREATE|os.O_RDWR|os.O_TRUNC, 0o644)
 		if err != nil {
@@ -215,7 +220,47 @@ func Flush() {
 }
 
 // Main is the TestMain body of every property package.
+// progress counts journalled / recorded scenarios; the watchdog compares it with the CPU time the process consumes.
+var progress atomic.Int64
+
+func cpuSeconds() float64 {
+	var ru syscall.Rusage
+	if syscall.Getrusage(syscall.RUSAGE_SELF, &ru) != nil {
+		return 0
+	}
+	return float64(ru.Utime.Sec+ru.Stime.Sec) + float64(ru.Utime.Usec+ru.Stime.Usec)/1e6
+}
+
+// watchdog: a scenario takes milliseconds.  If the process burns 300 s of CPU time without finishing the scenario it is in,
+// some goroutine of the code under test neither blocks nor finishes (a livelock, e.g. a loop spinning on a closed channel):
+// the bubble cannot call that quiescent and the Go runtime cannot call it a deadlock.  The criterion is CPU time consumed,
+// not wall-clock time: a starved or suspended process consumes none and is never judged.
+func watchdog() {
+	const limit = 300.0
+	last, since := progress.Load(), cpuSeconds()
+	for {
+		time.Sleep(5 * time.Second)
+		if p := progress.Load(); p != last {
+			last, since = p, cpuSeconds()
+			continue
+		}
+		if used := cpuSeconds() - since; used >= limit {
+			f := Failure{Property: Prop(), Message: "no scenario"}
+			if b, err := os.ReadFile(filepath.Join(OutDir(), "journal.json")); err == nil {
+				json.Unmarshal(b, &f)
+			}
+			f.Message = fmt.Sprintf("livelock: the process consumed %.0f s of CPU time inside this one scenario without finishing it - a goroutine of the code under test neither blocks nor returns", used)
+			b, _ := json.MarshalIndent(f, "", " ")
+			os.WriteFile(filepath.Join(OutDir(), "fail.json"), b, 0o644)
+			fmt.Fprintln(os.Stderr, f.Message)
+			Flush()
+			os.Exit(1)
+		}
+	}
+}
+
 func Main(m *testing.M) {
+	go watchdog()
 	// some shards run on one or two processors: wake-up orders that sixteen processors never produce (one P runs the
 	// goroutine readied last first), all inside the same deterministic scripts
 	if n := procs(); n > 0 {
